@@ -26,12 +26,19 @@ def run(chk):
         ok = oc.replay_cases(chk, exe, cases, 'c14', key_case)
         for c in [c for c in cases if c.get('valid')][:3]:
             chk.sample(c)
-    n = 3000 if chk.quick else 40000
-    trace = vlib.workfile('c14_log.ndjson')
-    rc, out = vlib.run_drv(exe, ['objlog', '--what', 'derive', '--n', n, '--seed', chk.seed, '--out', trace])
-    if rc != 0:
-        raise vlib.ToolError('objlog failed: ' + out[-300:])
-    vlib.validate_trace(chk, 'Trace_Obj', trace, name='Trace_Obj[derive]', key_of=key_ev, resume=5, timeout=3000)
+    n = 3000 if chk.quick else 36000
+    nchunks = 6 if chk.quick else 12
+    traces = []
+    for i in range(nchunks):
+        trace = vlib.workfile('c14_log_%d.ndjson' % i)
+        rc, out = vlib.run_drv(exe, ['objlog', '--what', 'derive', '--n', n // nchunks, '--seed', chk.seed + i, '--out', trace])
+        if rc != 0:
+            raise vlib.ToolError('objlog failed: ' + out[-300:])
+        traces.append(trace)
+    results = vlib.tlc_parallel([dict(module='Trace_Obj', env={'TRACE': t}, deque=True, timeout=6000, tag='Trace_Obj[derive %d]' % i)
+                                 for i, t in enumerate(traces)], max_parallel=12)
+    for i, (t, r) in enumerate(zip(traces, results)):
+        vlib.judge_trace(chk, r, 'Trace_Obj', t, 'Trace_Obj[derive %d]' % i, key_of=key_ev)
     ncases = len(cases or [])
     nvalid = len([c for c in (cases or []) if c.get('valid')])
     chk.cov['evaluations'] = ncases + n
